@@ -144,9 +144,12 @@ def run(chk, failed):
         "fields), concurrent batches (focus conc and 4 % of the other cases: 8-16 goroutines push 6-30 messages each for "
         "pairwise disjoint groups through processConsumerOffsetsMessage of the one module at once), clock moves (incl. across "
         "expire-group), status requests in both views and both orders, consumer-list requests, reader and storage "
-        "allow/deny lists from the pattern pool; intervals 1-10, min-distance 0/1/5, minimum-complete and allowed-lag from "
+        "allow/deny lists from PIPE's own pattern pool (key absent / six patterns / key present with the empty string); intervals 1-10, min-distance 0/1/5, minimum-complete and allowed-lag from "
         "small pools.  non-trivial = the oracle checked CurrentLag of at least one partition with a stored commit against the "
         "brokers' last answer; distinct by the rendered case line")
+    note = G.foreign_pool_note()
+    if note:
+        chk.notes.append(note)
     lines, impl, model = run_both(chk, cases, "cases")
     chk.evaluations += len(cases)
     chk.traces_validated += len(cases)
